@@ -16,7 +16,7 @@ static const uint64_t STATUSES[] = {0x0101, 0x0102, 0x0103, 0x0104, 0x0105, 0x01
                                    0x100000000ULL, 0x8000000000000000ULL, 0xffffffff00000000ULL, 0x100000101ULL};   /* wider than 32 bits: low half zero / a known code */
 #define NSTATUS ((int)(sizeof STATUSES / sizeof *STATUSES))
 /* internally inconsistent replies: ways to break an honest body */
-#define NINCONS 8
+#define NINCONS 9
 
 typedef struct {
 	int behaviour, sub, version, shape, tail;
@@ -36,7 +36,8 @@ static void break_body(rsig *s, int sub) {
 		case 4: if (s->has_auth) s->auth_hash[2] ^= 1; else s->ch[0].index[0] += 2; break;          /* INT-08 */
 		case 5: if (s->has_cal) s->cal_aggr_time += 1; else s->ch[0].index[0] += 4; break;          /* INT-04/05 */
 		case 6: if (s->nchains > 1) s->ch[1].input[1] ^= 1; else s->ch[0].index[0] += 8; break;     /* INT-01 */
-		default: if (s->has_auth) s->auth_time -= 1; else s->ch[0].index[0] += 16; break;           /* INT-06 */
+		case 7: if (s->has_auth) s->auth_time -= 1; else s->ch[0].index[0] += 16; break;            /* INT-06 */
+		default: if (s->has_cal && (s->has_auth || s->has_pub)) s->has_cal = 0; else s->ch[0].index[0] += 32; break;   /* a record over a calendar root, but no calendar chain */
 	}
 }
 
@@ -291,6 +292,8 @@ static void one_case(int iface, int transport, int version, int doc_alg, uint64_
 			rs_eval(&S.client_view, &v);
 			rs_document_hash(&S.client_view, &dh, &dl);
 			expect_ok = !(v.violated | v.uncomputable) && dl == hhl && memcmp(dh, hh, dl) == 0;
+			/* an authentication or publication record without the calendar chain whose root it speaks about is not a signature */
+			if (!S.client_view.has_cal && (S.client_view.has_auth || S.client_view.has_pub)) expect_ok = 0;
 		}
 		vf_outcome("body:%s:%s", BNAME[behaviour], expect_ok ? "acceptable" : "unacceptable");
 	}
